@@ -26,6 +26,8 @@ func main() {
 		err = cmdLife(os.Args[2:])
 	case "exp":
 		err = cmdExp(os.Args[2:])
+	case "view":
+		err = cmdView(os.Args[2:])
 	case "hlc":
 		err = cmdHLC(os.Args[2:])
 	case "shut":
